@@ -185,3 +185,108 @@ func VerifC15EnvFile(l0, l1 int) {
 		rt.Cover("C15.env-file-read")
 	}
 }
+
+// ---- a grammar of definitions: every optional part independently absent / null / empty / present ----
+
+var c15G = []string{"0", "1", "2", "3"}
+
+func c15TaskDef(id string, shape int) *taskDefinition {
+	rt.Observe("task."+id+".shape", shape)
+	switch shape {
+	case 0:
+		return nil
+	case 1:
+		return &taskDefinition{}
+	case 2:
+		return &taskDefinition{Command: []string{"true"}, Context: "c1", Variations: []map[string]string{nil}}
+	case 3:
+		return &taskDefinition{Command: []string{}, Context: "nosuch", Before: []string{""}, After: nil, Env: map[string]string{}}
+	case 4:
+		return &taskDefinition{Name: "renamed", Command: []string{"a", "b"}, Variations: []map[string]string{{}, {"K": "v"}}, Condition: "c", ExportAs: "E", Dir: "/d"}
+	}
+	return &taskDefinition{Command: []string{"true"}}
+}
+
+func c15StageDef(id string) *stageDefinition {
+	switch rt.Concrete(rt.Choice("stage."+id+".shape", 8)) {
+	case 0:
+		return nil
+	case 1:
+		return &stageDefinition{}
+	case 2:
+		return &stageDefinition{Task: "t1"}
+	case 3:
+		return &stageDefinition{Task: "t1", Name: "n", DependsOn: []string{"t1"}, Dir: "/x", Env: map[string]string{"A": "b"}, Variables: nil}
+	case 4:
+		return &stageDefinition{Pipeline: "p2", Dir: "/x", Condition: "c", AllowFailure: true}
+	case 5:
+		return &stageDefinition{Task: "t1", Pipeline: "p2", DependsOn: []string{}}
+	case 6:
+		return &stageDefinition{Name: "only-a-name", DependsOn: []string{"t1"}}
+	}
+	return &stageDefinition{Pipeline: "p1", Name: "self"}
+}
+
+// VerifC15Grammar: tasks t1 (sound) and t2 (any shape), contexts c1 (sound) and c2 (null / empty /
+// sound), pipeline p1 with two stages of any shape, p2 (sound / empty / null list), watcher (null /
+// unknown task / sound).
+func VerifC15Grammar(t2shape int) {
+	rt.Redirect("github.com/taskctl/taskctl/internal/watch.NewWatcher", c15NewWatcher)
+	rt.Redirect("github.com/taskctl/taskctl/pkg/utils.ReadEnvFile", c15ReadEnvFile)
+	c15EnvFileMissing = false
+	def := &configDefinition{
+		Tasks:     map[string]*taskDefinition{"t1": {Command: []string{"true"}}, "t2": c15TaskDef("t2", t2shape)},
+		Contexts:  map[string]*contextDefinition{"c1": {Dir: "/ctx"}},
+		Pipelines: map[string][]*stageDefinition{},
+		Watchers:  map[string]*watcherDefinition{},
+	}
+	switch rt.Concrete(rt.Choice("context.c2.shape", 3)) {
+	case 0:
+		def.Contexts["c2"] = nil
+	case 1:
+		def.Contexts["c2"] = &contextDefinition{}
+	}
+	switch rt.Concrete(rt.Choice("pipeline.p2.shape", 3)) {
+	case 0:
+		def.Pipelines["p2"] = nil
+	case 1:
+		def.Pipelines["p2"] = []*stageDefinition{}
+	default:
+		def.Pipelines["p2"] = []*stageDefinition{{Task: "t1"}}
+	}
+	def.Pipelines["p1"] = []*stageDefinition{c15StageDef("p1.0"), c15StageDef("p1.1")}
+	switch rt.Concrete(rt.Choice("watcher.shape", 4)) {
+	case 0:
+		def.Watchers["w"] = nil
+	case 1:
+		def.Watchers["w"] = &watcherDefinition{Task: "nosuch"}
+	case 2:
+		def.Watchers["w"] = &watcherDefinition{Task: "t2", Events: nil, Watch: nil, Exclude: []string{""}}
+	default:
+		def.Watchers["w"] = &watcherDefinition{Task: "t1", Watch: []string{"*.go"}}
+	}
+	cfg, err := buildFromDefinition(def, &loaderContext{Dir: "/proj"})
+	rt.Assert(true, "C15.grammar-building-ended-without-a-crash")
+	if err != nil {
+		rt.Cover("C15.grammar-rejected")
+		return
+	}
+	rt.Cover("C15.grammar-built")
+	// what the CLI commands read from a loaded configuration (list / show / graph / validate walk these)
+	for name, t := range cfg.Tasks {
+		_ = name
+		_ = t.Name + t.Description + t.Dir + t.Context
+		_ = len(t.Commands) + len(t.GetVariations())
+	}
+	for _, g := range cfg.Pipelines {
+		for n, st := range g.Nodes() {
+			_ = n
+			_ = st.Name
+			_ = len(g.To(st.Name)) + len(g.From(st.Name))
+			if st.Task != nil {
+				_ = st.Task.Name
+			}
+		}
+	}
+	rt.Assert(true, "C15.walking-the-loaded-configuration-ended-without-a-crash")
+}
